@@ -226,4 +226,176 @@ theorem text_refines {rb : RB} {a : AState} (wf : WF rb) (R : Refines rb a) (s :
   atCursor_refines wf R (fun r l c => putString r l c s) (fun a l c => RBAbs.textAt a l c s) (putStringRet s)
     (fun l c => textAt_refines wf R l c s) (fun l c => putString_aux rb l c s)
 
+theorem refines_paint_none {rb : RB} {a : AState} (R : Refines rb a) (covers : Int → Int → Bool)
+    (what : Int → Int → Content → Content) (h : ∀ l c, covers l c = false) : Refines rb (paint a covers what) := by
+  refine refines_paint R rfl (fun _ _ => rfl) covers what ?_
+  intro L C; rw [h]; simp
+
+theorem toOp_refines {rb : RB} {a : AState} (wf : WF rb) (R : Refines rb a) (col : Int)
+    (opC : RB → Int → Int → Int → RB) (opA : AState → Int → Int → Int → AState)
+    (hop : ∀ l c n, WF (opC rb l c n) ∧ Refines (opC rb l c n) (opA a l c n))
+    (haux : ∀ l c n, (opC rb l c n).aux = rb.aux)
+    (hnone : ∀ l c n, n ≤ 0 → Refines rb (opA a l c n)) :
+    WF (if !rb.vcSet then rb else
+        { (if rb.vcCol < col then opC rb rb.vcLine rb.vcCol (col - rb.vcCol) else rb) with vcCol := col }) ∧
+    Refines (if !rb.vcSet then rb else
+        { (if rb.vcCol < col then opC rb rb.vcLine rb.vcCol (col - rb.vcCol) else rb) with vcCol := col })
+      (match a.vc with
+       | none => a
+       | some (l, c) => { opA a l c (col - c) with vc := some (l, col) }) := by
+  have hv := R.vc
+  unfold getCursor at hv
+  cases hs : rb.vcSet with
+  | false =>
+    rw [hs] at hv; simp only [Bool.false_eq_true, if_false] at hv
+    rw [hv]; simp only [Bool.not_false, if_true]
+    exact ⟨wf, R⟩
+  | true =>
+    rw [hs] at hv; simp only [if_true] at hv
+    rw [hv]; simp only [Bool.not_true, Bool.false_eq_true, if_false]
+    by_cases hlt : rb.vcCol < col
+    · simp only [hlt, if_true]
+      obtain ⟨w1, r1⟩ := hop rb.vcLine rb.vcCol (col - rb.vcCol)
+      have e1 : (opC rb rb.vcLine rb.vcCol (col - rb.vcCol)).vcSet = true := (congrArg Aux.vcSet (haux _ _ _)).trans hs
+      have e2 : (opC rb rb.vcLine rb.vcCol (col - rb.vcCol)).vcLine = rb.vcLine := congrArg Aux.vcLine (haux _ _ _)
+      exact ⟨wf_setcol w1 col, refines_setcol r1 e1 rb.vcLine col e2⟩
+    · simp only [hlt, if_false]
+      exact ⟨wf_setcol wf col, refines_setcol (hnone rb.vcLine rb.vcCol (col - rb.vcCol) (by omega)) hs rb.vcLine col rfl⟩
+
+theorem inRun_empty (line col cols : Int) (h : cols ≤ 0) (l c : Int) : inRun line col cols l c = false := by
+  cases hx : inRun line col cols l c
+  · rfl
+  · have := (inRun_iff _ _ _ _ _).1 hx; omega
+
+theorem eraseTo_refines {rb : RB} {a : AState} (wf : WF rb) (R : Refines rb a) (col : Int) :
+    WF (RB.eraseTo rb col) ∧ Refines (RB.eraseTo rb col) (RBAbs.eraseTo a col) :=
+  toOp_refines wf R col (fun r l c n => eraseRun r l c n) (fun a l c n => RBAbs.eraseAt a l c n)
+    (fun l c n => eraseAt_refines wf R l c n) (fun l c n => eraseRun_aux rb l c n)
+    (fun l c n hn => refines_paint_none R _ _ (inRun_empty l c n hn))
+
+theorem skipTo_refines {rb : RB} {a : AState} (wf : WF rb) (R : Refines rb a) (col : Int) :
+    WF (RB.skipTo rb col) ∧ Refines (RB.skipTo rb col) (RBAbs.skipTo a col) :=
+  toOp_refines wf R col (fun r l c n => skipRun r l c n) (fun a l c n => RBAbs.skipAt a l c n)
+    (fun l c n => skipAt_refines wf R l c n) (fun l c n => skipRun_aux rb l c n)
+    (fun l c n hn => refines_paint_none R _ _ (inRun_empty l c n hn))
+
+/-! ## Translation, clip -/
+
+theorem translate_refines {rb : RB} {a : AState} (wf : WF rb) (R : Refines rb a) (d r : Int) :
+    WF (RB.translate rb d r) ∧ Refines (RB.translate rb d r) (RBAbs.translate a d r) := by
+  refine ⟨⟨wf.size, wf.rows, wf.maskLB, wf.maskUB, wf.depth, wf.clip, wf.frames, wf.aborted, wf.fuelOut⟩,
+    ⟨R.lines, R.cols, R.content, R.masked, R.vc, ?_, ?_, R.clip, R.pen, ?_⟩⟩
+  · show a.xlLine + d = rb.xlLine + d; rw [R.xlLine]
+  · show a.xlCol + r = rb.xlCol + r; rw [R.xlCol]
+  · refine FramesRel_congr (rb := rb) ?_ _ _ _ R.stack
+    intro d L C; rfl
+
+theorem intersect_cases (a b : Rect) :
+    (Rect.intersect a b = none ∧ ∀ l c, ¬ (a.Mem l c ∧ b.Mem l c)) ∨
+    (∃ r, Rect.intersect a b = some r ∧ 0 < r.lines ∧ 0 < r.cols ∧ ∀ l c, r.Mem l c ↔ (a.Mem l c ∧ b.Mem l c)) := by
+  unfold Rect.intersect
+  simp only
+  by_cases h1 : max a.top b.top ≥ min a.bottom b.bottom
+  · left; rw [if_pos h1]; refine ⟨rfl, ?_⟩
+    intro l c; unfold Rect.Mem Rect.bottom Rect.right at *; omega
+  · rw [if_neg h1]
+    by_cases h2 : max a.left b.left ≥ min a.right b.right
+    · left; rw [if_pos h2]; refine ⟨rfl, ?_⟩
+      intro l c; unfold Rect.Mem Rect.bottom Rect.right at *; omega
+    · right; rw [if_neg h2]
+      refine ⟨_, rfl, ?_, ?_, ?_⟩
+      · unfold Rect.initBounded; simp only; omega
+      · unfold Rect.initBounded; simp only; omega
+      · intro l c; unfold Rect.Mem Rect.initBounded Rect.bottom Rect.right at *; simp only; omega
+
+theorem absClipRect_mem (r : Rect) (L C : Int) : absClipRect r L C = true ↔ (r.lines ≠ 0 ∧ r.Mem L C) := by
+  rw [absClipRect_iff]; unfold Rect.Mem Rect.bottom Rect.right
+  constructor
+  · rintro ⟨a, b, c, d, e⟩; exact ⟨a, b, c, d, e⟩
+  · rintro ⟨a, b, c, d, e⟩; exact ⟨a, b, c, d, e⟩
+
+theorem memb_iff (r : Rect) (l c : Int) : r.memb l c = true ↔ r.Mem l c := by
+  unfold Rect.memb Rect.Mem; simp only [Bool.and_eq_true, decide_eq_true_eq]
+  constructor
+  · rintro ⟨⟨⟨a, b⟩, c⟩, d⟩; exact ⟨a, b, c, d⟩
+  · rintro ⟨a, b, c, d⟩; exact ⟨⟨⟨a, b⟩, c⟩, d⟩
+
+theorem bool_ext {x y : Bool} (h : x = true ↔ y = true) : x = y := by cases x <;> cases y <;> simp_all
+
+theorem clip_refines {rb : RB} {a : AState} (wf : WF rb) (R : Refines rb a) (rect : Rect) :
+    WF (Tickit.RB.clip rb rect) ∧ Refines (Tickit.RB.clip rb rect) (RBAbs.clip a rect) := by
+  have hmemT : ∀ L C, (rect.translate rb.xlLine rb.xlCol).Mem L C ↔ rect.Mem (L - rb.xlLine) (C - rb.xlCol) := by
+    intro L C; unfold Rect.translate Rect.Mem Rect.bottom Rect.right; simp only; omega
+  have key : ∀ L C, absClipRect (Tickit.RB.clip rb rect).clip L C = (absClipRect rb.clip L C && rect.memb (L - rb.xlLine) (C - rb.xlCol)) := by
+    intro L C
+    apply bool_ext
+    rw [Bool.and_eq_true, absClipRect_mem, absClipRect_mem, memb_iff, ← hmemT]
+    unfold Tickit.RB.clip
+    simp only
+    rcases intersect_cases rb.clip (rect.translate rb.xlLine rb.xlCol) with ⟨h1, h2⟩ | ⟨r, h1, h2, h3, h4⟩
+    · rw [h1]; simp only
+      constructor
+      · intro x; exact absurd rfl x.1
+      · intro x; exact absurd ⟨x.1.2, x.2⟩ (h2 L C)
+    · rw [h1]; simp only
+      rw [h4]
+      constructor
+      · intro x
+        refine ⟨⟨?_, x.2.1⟩, x.2.2⟩
+        have := x.2.1; unfold Rect.Mem Rect.bottom at this; omega
+      · intro x; exact ⟨by omega, x.1.2, x.2⟩
+  have hclip : ClipOK rb.lines rb.cols (Tickit.RB.clip rb rect).clip := by
+    have hc := wf.clip
+    unfold ClipOK at hc ⊢
+    unfold Tickit.RB.clip
+    simp only
+    rcases intersect_cases rb.clip (rect.translate rb.xlLine rb.xlCol) with ⟨h1, h2⟩ | ⟨r, h1, h2, h3, h4⟩
+    · rw [h1]; left; rfl
+    · rw [h1]; simp only
+      right
+      have m1 := (h4 r.top r.left).1 (by unfold Rect.Mem Rect.bottom Rect.right; omega)
+      have m2 := (h4 (r.top + r.lines - 1) (r.left + r.cols - 1)).1 (by unfold Rect.Mem Rect.bottom Rect.right; omega)
+      unfold Rect.Mem Rect.bottom Rect.right at m1 m2
+      unfold Rect.bottom Rect.right at *
+      omega
+  have hcells : (Tickit.RB.clip rb rect).cells = rb.cells := by unfold Tickit.RB.clip; simp only; split <;> rfl
+  have haux : (Tickit.RB.clip rb rect).lines = rb.lines ∧ (Tickit.RB.clip rb rect).cols = rb.cols ∧
+      (Tickit.RB.clip rb rect).depth = rb.depth ∧ (Tickit.RB.clip rb rect).stack = rb.stack ∧
+      (Tickit.RB.clip rb rect).vcSet = rb.vcSet ∧ (Tickit.RB.clip rb rect).vcLine = rb.vcLine ∧ (Tickit.RB.clip rb rect).vcCol = rb.vcCol ∧
+      (Tickit.RB.clip rb rect).xlLine = rb.xlLine ∧ (Tickit.RB.clip rb rect).xlCol = rb.xlCol ∧ (Tickit.RB.clip rb rect).pen = rb.pen ∧
+      (Tickit.RB.clip rb rect).aborted = rb.aborted ∧ (Tickit.RB.clip rb rect).fuelOut = rb.fuelOut := by
+    unfold Tickit.RB.clip; simp only; split <;> simp
+  obtain ⟨a1, a2, a3, a4, a5, a6, a7, a8, a9, a10, a11, a12⟩ := haux
+  have hcell : ∀ L C, (Tickit.RB.clip rb rect).cell L C = rb.cell L C := by intro L C; unfold RB.cell; rw [hcells]
+  have hcont : ∀ L C, absContent (Tickit.RB.clip rb rect) L C = absContent rb L C := by
+    intro L C; unfold absContent; simp only [a1, a2, hcell]
+  have hmask : ∀ L C, absMasked (Tickit.RB.clip rb rect) L C = absMasked rb L C := by
+    intro L C; unfold absMasked; simp only [a1, a2, hcell]
+  refine ⟨⟨?_, ?_, ?_, ?_, ?_, ?_, ?_, ?_, ?_⟩, ⟨?_, ?_, ?_, ?_, ?_, ?_, ?_, ?_, ?_, ?_⟩⟩
+  · rw [a1, a2]; exact wf.size
+  · intro l x y; rw [a2, hcells]; exact wf.rows l x (by omega)
+  · intro l c; rw [hcell]; exact wf.maskLB l c
+  · intro l c; rw [hcell, a3]; exact wf.maskUB l c
+  · rw [a3, a4]; exact wf.depth
+  · rw [a1, a2]; exact hclip
+  · rw [a1, a2, a4]; exact wf.frames
+  · rw [a11]; exact wf.aborted
+  · rw [a12]; exact wf.fuelOut
+  · show a.lines = _; rw [a1]; exact R.lines
+  · show a.cols = _; rw [a2]; exact R.cols
+  · intro L C; show a.content L C = _; rw [hcont]; exact R.content L C
+  · intro L C; show a.masked L C = _; rw [hmask]; exact R.masked L C
+  · show a.vc = _; unfold getCursor; rw [a5, a6, a7]; exact R.vc
+  · show a.xlLine = _; rw [a8]; exact R.xlLine
+  · show a.xlCol = _; rw [a9]; exact R.xlCol
+  · intro L C
+    show (a.clip L C && rect.memb (L - a.xlLine) (C - a.xlCol)) = _
+    rw [key, R.clip, R.xlLine, R.xlCol]
+  · show a.pen = _; rw [a10]; exact R.pen
+  · show FramesRel _ _ _ a.stack
+    rw [a3, a4]
+    refine FramesRel_congr (rb := rb) ?_ _ _ _ R.stack
+    intro d L C
+    unfold absMaskedAt; rw [hmask, hcell]
+
 end Tickit.RB
